@@ -146,6 +146,22 @@ def h_scalar_options(ctx, d, kind):
     ctx.claim('ind_to_poi_scalar_eq_vector', ctx.all_([ctx.eq(X1[k], X2[k]) for k in range(d)]))
 
 
+def h_reuse_options(ctx, kind):
+    """The same option arrays used for several calls (single index, native int n)."""
+    a, b = _box(ctx, 2)
+    n = np.array([3, 4])
+    n0 = n.copy()
+    i = np.array([2, 3])
+    X1 = teneva.ind_to_poi(i, a, b, n, kind)
+    X2 = teneva.ind_to_poi(i, a, b, n, kind)
+    ctx.claim('second_call_same_points', ctx.all_([ctx.eq(X1[k], X2[k]) for k in range(2)]))
+    ctx.claim('options_untouched', bool(np.array_equal(n, n0)))
+    ctx.claim('last_index_is_end', ctx.all_([ctx.eq(X2[k], b[k] if kind == 'uni' else a[k]) for k in range(2)]))
+    J = teneva.poi_to_ind(X2, a, b, n, kind)
+    ctx.claim('roundtrip', all(int(J[k]) == int(i[k]) for k in range(2)))
+    ctx.claim('options_untouched_after_poi_to_ind', bool(np.array_equal(n, n0)))
+
+
 def h_bad_options(ctx):
     x = vec(ctx, 'x', 2)
     ctx.raises(ValueError, 'len_mismatch_ab', teneva.grid_prep_opts, [0., 0.], [1., 1., 1.], None)
@@ -212,6 +228,8 @@ def instances(tier):
     for kind in ('uni', 'cheb'):
         out.append({'func': 'h_scalar_options', 'params': {'d': 2, 'kind': kind}})
     out.append({'func': 'h_bad_options', 'params': {}})
+    for kind in ('uni', 'cheb'):
+        out.append({'func': 'h_reuse_options', 'params': {'kind': kind}})
     for n in ([[2, 3], [3, 2, 2]] if quick else [[2, 3], [3, 2, 2], [3, 3, 3], [2, 2, 2, 2]]):
         out.append({'func': 'h_grid_flat', 'params': {'n': n}})
     for m in ([1, 2, 3] if quick else [1, 2, 3, 4]):
